@@ -342,8 +342,8 @@ func (r *stepRig) run(c *stepCase, code []uint8) stepOutcome {
 	o.logged = atomic.LoadInt64(&logLines) != l0
 	o.got = eng.FromCPU(&r.cpu)
 	o.nAccess = len(r.mb.Log)
-	if !o.logged && !o.in.Documented && consumedAsInvalid(&o.pre, &o.got, r.ib.Log, r.memKind == memRec) {
-		o.logged = true // an undocumented encoding this tree does not support (and does not report): no verdict
+	if !o.logged && o.in.Optional && consumedAsInvalid(&o.pre, &o.got, r.ib.Log, r.memKind == memRec) {
+		o.logged = true // an optional encoding (RETN mirror) this tree does not support (and does not report): no verdict
 	}
 	if o.logged {
 		// the emulator treats the encoding as unsupported
